@@ -99,7 +99,7 @@ CLAIMED = {
             "scales) with aliasing-aware state fingerprints",
             "E-INPUT: all (domain, range, query) combinations of a 14-value float grid plus near-tie domains; the map through the reported "
             "end points after nice(m) for every ordered pair of the integers and halves -10..20; E-HIST: every call history up to depth 4 "
-            "(thorough 5; 6 for a 13-operation core alphabet) over 27 operations on <=3 scales, each state rebuilt on fresh real objects; "
+            "(thorough 5; 7 for a 13-operation core alphabet) over 27 operations on <=3 scales, each state rebuilt on fresh real objects; "
             "invariants: setters set, reported end points map to reported range (method and call form), clamped outputs stay in the "
             "range, no cross-scale interference." + _N,
             "trusted: Fraction arithmetic; fingerprint only deduplicates, it is over-fine by construction", "DESIGN.md sections 4 C12, 10"),
